@@ -231,7 +231,8 @@ func (b *assignmentBuilder) createWithConverter(lhs, rhs bmodel.Node, converter 
 		}
 
 		rhsNode, ok := b.resolveExpr(converter.Src(), root)
-		if !ok {
+		if !ok || rhsNode.ReturnsError() {
+			// A call that also yields an error cannot be the argument of the converter.
 			return nil
 		}
 
@@ -345,6 +346,11 @@ func (b *assignmentBuilder) createWithTemplatedMapper(
 func (b *assignmentBuilder) castNode(lhsType types.Type, rhs bmodel.Node) (c bmodel.Node, ok bool) {
 	if types.AssignableTo(rhs.ExprType(), lhsType) {
 		return rhs, true
+	}
+
+	if rhs.ReturnsError() {
+		// A call that also yields an error cannot be wrapped in a String() call or a conversion.
+		return nil, false
 	}
 
 	if b.opts.Stringer && types.AssignableTo(util.StringType(), lhsType) && util.CompliesStringer(rhs.ExprType()) {
